@@ -36,6 +36,9 @@ def families(tier):
     P = 3 if tier == 'quick' else 4
     return ([{'name': 'race', 'params': {'P': P, 'methods': COMPLEX}, 'weight': 3},
              {'name': 'race', 'params': {'P': P, 'methods': QUERIES}, 'weight': 3},
+             # line-level yield points in the racing family as well (one pre-emption): stores that lost their lock
+             {'name': 'race', 'params': {'P': 2, 'lines': True, 'methods': ['is_dir', 'declare_read'], 'owners': ['subbuild', 'build_file'],
+                                         'raises': [False]}, 'weight': 3},
              {'name': 'published', 'params': {'P': 2, 'lines': True, 'methods': ['is_dir', 'declare_read', 'subbuild'], 'owners': ['build_file'],
                                               'raises': [False]}, 'weight': 2},
              {'name': 'after-close', 'params': {'P': 0, 'methods': METHODS}, 'weight': 1},
